@@ -37,7 +37,7 @@ def chain_for(ops, idx):
     def handles_of(line):
         f = line.split("\t")
         op = f[0]
-        if op in ("obs", "mod", "rt", "hr"):
+        if op in ("obs", "mod", "rt", "hr", "hre"):
             return [int(f[2])]
         if op == "jn":
             return [int(f[2]), int(f[3])]
@@ -68,7 +68,7 @@ def renumber(ops, keep):
     for n in keep:
         f = ops[n].split("\t")
         op = f[0]
-        if op in ("obs", "mod", "rt", "hr"):
+        if op in ("obs", "mod", "rt", "hr", "hre"):
             f[2] = str(hmap[int(f[2])])
         elif op == "jn":
             f[2] = str(hmap[int(f[2])])
@@ -87,7 +87,7 @@ def renumber(ops, keep):
 
 def to_placeholder(line):
     f = line.split("\t")
-    if f[0] in ("new", "bld", "obs", "mod", "jn", "rt", "hr", "q", "uq") and len(f) > 1 and f[1] in ("py", "c"):
+    if f[0] in ("new", "bld", "obs", "mod", "jn", "rt", "hr", "hre", "q", "uq") and len(f) > 1 and f[1] in ("py", "c"):
         f[1] = "B"
     return "\t".join(f)
 
@@ -618,7 +618,7 @@ def closure(full, idxs):
         f = full[n].split("\t")
         op = f[0]
         hs = []
-        if op in ("obs", "mod", "rt", "hr"):
+        if op in ("obs", "mod", "rt", "hr", "hre"):
             hs = [int(f[2])]
         elif op == "jn":
             hs = [int(f[2]), int(f[3])]
